@@ -145,6 +145,16 @@ class IndexedData(BaseCartesianData, HubListener):
             view = np.nonzero(view)
         elif not isinstance(view, (tuple, list)):
             view = (view,)
+        else:
+            # A boolean array inside a tuple stands for as many dimensions as
+            # it has (Numpy treats it as the index arrays given by nonzero())
+            expanded = []
+            for v in view:
+                if isinstance(v, np.ndarray) and v.dtype.kind == 'b':
+                    expanded.extend(np.nonzero(v))
+                else:
+                    expanded.append(v)
+            view = expanded
         view = tuple(view) + (slice(None),) * (self.ndim - len(view))
         original_view = list(self.indices)
         idim_reduced = 0
